@@ -10,7 +10,7 @@ from ..engine import Ctx, Finding, RuleResult, cfg_str, trace_of
 from ..loader import AnalysisError, dotted_name
 from ..terms import EV, EVITEM, EVKEY, show, subterms
 from .common import Emission, emissions, mk_finding, mux_emissions, summary
-from .linear import linform, normalise_cmp
+from .linear import quotient_shape, linform, normalise_cmp
 from .lv import _index_of_key, _is_notset
 
 SENTINEL_CLASSES = ("NotSet", "StateNotSet", "StateSet", "StateCleared", "object")
@@ -69,23 +69,38 @@ def _normal(p):
 
 # ======================================================================
 # EQ-1
-def _is_sentinel_expr(prog, m, node, fn):
+def _is_sentinel_expr(prog, m, node, fn, depth=0):
     if isinstance(node, ast.Constant):
         return node.value is None or node.value is True or node.value is False or node.value is Ellipsis
     dn = dotted_name(node)
     if dn is not None:
         last = dn.split(".")[-1]
         if isinstance(node, ast.Name):
-            # local / enclosing binding to a sentinel instance:  X = NotSet()
+            # local / enclosing binding to a sentinel:  X = NotSet()  /  notset = rs.state.markers.STATE_NOTSET
+            # (every assignment of the nearest scope binding the name must be one)
             f = fn
             while f is not None:
-                for n in ast.walk(f):
+                vals = []
+                for n in _own_nodes(f):
                     if isinstance(n, ast.Assign) and any(isinstance(t, ast.Name) and t.id == node.id for t in n.targets):
-                        v = n.value
+                        vals.append(n.value)
+                    elif isinstance(n, (ast.AugAssign, ast.For, ast.NamedExpr)) and any(
+                            isinstance(x, ast.Name) and x.id == node.id for x in ast.walk(n.target)):
+                        vals.append(None)
+                if vals:
+                    def one(v):
+                        if v is None:
+                            return False
                         if isinstance(v, ast.Call):
                             cn = dotted_name(v.func)
                             if cn and cn.split(".")[-1] in SENTINEL_CLASSES:
                                 return True
+                        return depth < 3 and not isinstance(v, ast.Constant) and _is_sentinel_expr(prog, m, v, f, depth + 1)
+                    if all(one(v) for v in vals):
+                        return True
+                    break
+                if node.id in {a.arg for a in f.args.args + f.args.kwonlyargs + f.args.posonlyargs}:
+                    break
                 f = m.enclosing_function(f)
             if node.id in TYPE_NAMES:
                 return True
@@ -112,6 +127,32 @@ def _is_sentinel_expr(prog, m, node, fn):
     return False
 
 
+def _own_nodes(fn):
+    stack = list(fn.body) if not isinstance(fn, ast.Lambda) else [fn.body]
+    while stack:
+        n = stack.pop()
+        yield n
+        for c in ast.iter_child_nodes(n):
+            if not isinstance(c, (ast.FunctionDef, ast.AsyncFunctionDef, ast.Lambda)):
+                stack.append(c)
+
+
+def _guarded_by_isinstance_type(m, node, left, right):
+    """x is y under ``if isinstance(y, type):`` -- identity is how classes are compared"""
+    names = {ast.unparse(left), ast.unparse(right)}
+    cur = m.parent.get(node)
+    child = node
+    while cur is not None and not isinstance(cur, (ast.FunctionDef, ast.Lambda, ast.Module)):
+        if isinstance(cur, ast.If) and child in cur.body:
+            t = cur.test
+            if isinstance(t, ast.Call) and isinstance(t.func, ast.Name) and t.func.id == "isinstance" and len(t.args) == 2 \
+                    and isinstance(t.args[1], ast.Name) and t.args[1].id == "type" and ast.unparse(t.args[0]) in names:
+                return True
+        child = cur
+        cur = m.parent.get(cur)
+    return False
+
+
 def rule_eq1(ctx: Ctx, files=None, min_instances=1) -> RuleResult:
     r = RuleResult("EQ-1", "identity comparisons only against sentinels / types: user values (group keys, predicates, items) are compared by ==")
     prog = ctx.program
@@ -132,7 +173,8 @@ def rule_eq1(ctx: Ctx, files=None, min_instances=1) -> RuleResult:
                     fn = m.enclosing_function(node)
                     qn = m.scopes[fn].qualname if fn is not None else "<module>"
                     r.instances += 1
-                    ok = _is_sentinel_expr(prog, m, left, fn) or _is_sentinel_expr(prog, m, right, fn)
+                    ok = _is_sentinel_expr(prog, m, left, fn) or _is_sentinel_expr(prog, m, right, fn) \
+                        or _guarded_by_isinstance_type(m, node, left, right)
                     if not ok and (rel, qn) in allow:
                         ok = True
                         note = "%s::%s allow-listed: %s" % (rel, qn, allow[(rel, qn)])
@@ -797,31 +839,9 @@ def _flush_start_shape(idx, s_n="state_n"):
 
     def is_stride(t):
         return t[0] == "param" and t[1] == "stride"
-    # -(-n // s)
-    if first[0] == "unop" and first[1] == "USub" and first[2][0] == "binop" and first[2][1] == "FloorDiv" and is_stride(first[2][3]):
-        num = first[2][2]
-        if num == ("unop", "USub", n):
-            return ("ceil", show(first))
-    if first[0] == "binop" and first[1] == "FloorDiv" and is_stride(first[3]):
-        f = linform(first[2])
-        if f is not None:
-            co = dict(f[0])
-            if co == {n: 1} and f[1] == 0:
-                return ("floor", show(first))
-            st = [k for k in co if is_stride(k)]
-            if set(co) == {n} | set(st) and co[n] == 1 and len(st) == 1 and co[st[0]] == 1 and f[1] == -1:
-                return ("ceil", show(first))
-    # (n - 1) // s + 1
-    if first[0] == "binop" and first[1] == "Add":
-        for a, b in ((first[2], first[3]), (first[3], first[2])):
-            if b == ("const", 1) and a[0] == "binop" and a[1] == "FloorDiv" and is_stride(a[3]):
-                f = linform(a[2])
-                if f is not None and dict(f[0]) == {n: 1} and f[1] == -1:
-                    return ("ceil", show(first))
-    if first[0] == "call" and first[1] == ("glob", "math.ceil") and len(first[2]) == 1:
-        q = first[2][0]
-        if q[0] == "binop" and q[1] == "Div" and q[2] == n and is_stride(q[3]):
-            return ("ceil", show(first))
+    q = quotient_shape(first)
+    if q is not None and is_stride(q[2]) and dict(q[1][0]) == {n: 1} and q[1][1] == 0:
+        return (q[0], show(first))
     return ("unknown", show(first))
 
 
